@@ -197,8 +197,45 @@ def _x86_returns(ctx, f, flow, pa, pb, tname, vcls, spec):
             if it_ok:
                 fam = "basic gpr"
         else:
-            # numbered: both regex matches truthy and groups equal
-            m = [t for t in pos if ".group(1) == " in t]
+            # numbered, general form: index(A) == index(B) where index(x) is the captured number of the numbered-register regex
+            # applied to x (None when it does not match), together with evidence that the index is not None
+            def index_of(e, depth=0):
+                """(subject text, optional?) when e is the captured number of the regex on a subject"""
+                if isinstance(e, ast.Name) and depth < 3:
+                    ds = [d for d in flow.all_defs.get(e.id, []) if d.value is not None]
+                    return index_of(ds[0].value, depth + 1) if len(ds) == 1 else None
+                if isinstance(e, ast.IfExp) and isinstance(e.orelse, ast.Constant) and e.orelse.value is None \
+                        and C.is_call_to(e.test, "re.match", "re.fullmatch") and U(e.body) == U(e.test) + ".group(1)":
+                    return U(e.test.args[1]), True
+                if pm.match("M_m.group(1)", e) is not None and isinstance(pm.match("M_m.group(1)", e)["M_m"], ast.Name):
+                    mv = pm.match("M_m.group(1)", e)["M_m"].id
+                    ds = [d for d in flow.all_defs.get(mv, []) if d.value is not None and C.is_call_to(d.value, "re.match", "re.fullmatch")]
+                    if len(ds) == 1:
+                        return U(ds[0].value.args[1]), mv
+                return None
+            for e, pol in C.facts_at(r):
+                if not (pol and isinstance(e, ast.Compare) and len(e.ops) == 1 and isinstance(e.ops[0], ast.Eq)):
+                    continue
+                ia, ib = index_of(e.left), index_of(e.comparators[0])
+                if ia is None or ib is None or {ia[0], ib[0]} != {A, B}:
+                    continue
+                notnone = False
+                for e2, pol2 in C.facts_at(r):
+                    t2 = C.is_none_test(e2)
+                    if t2 is not None and t2[1] != pol2 and index_of(ast.parse(t2[0], mode="eval").body if not isinstance(e2.left, ast.Name) else e2.left) is not None:
+                        notnone = True
+                    if t2 is not None and t2[1] != pol2 and isinstance(e2.left, (ast.IfExp, ast.Name)) and index_of(e2.left) is not None:
+                        notnone = True
+                both_truthy = all(isinstance(x[1], str) and x[1] in pos for x in (ia, ib))
+                if notnone or both_truthy:
+                    fam = "numbered gpr"
+                else:
+                    ctx.node_bad("R4", f, r, "the numbered-register indices of the two names are compared with `%s` without requiring that "
+                                 "they exist: for two names that are NOT numbered registers both indices are None and compare equal, so "
+                                 "every such pair (e.g. the mask register k1 and rax) is reported dependent" % U(e)[:120],
+                                 instance="numbered index equality without existence")
+                    fam = "numbered gpr (unguarded)"
+            m = [t for t in pos if ".group(1) == " in t] if fam is None else []
             if m:
                 l, rr = m[0].split(" == ")
                 va, vb = l.split(".")[0], rr.split(".")[0]
@@ -209,6 +246,9 @@ def _x86_returns(ctx, f, flow, pa, pb, tname, vcls, spec):
                         d.value, "re.match", "re.fullmatch")}
                     if subj == {A, B}:
                         fam = "numbered gpr"
+        if fam == "numbered gpr (unguarded)":
+            fam_seen.add("numbered gpr")
+            continue
         if fam:
             fam_seen.add(fam)
             ctx.node_ok("R4", f, r, "return True under the %s condition" % fam)
